@@ -271,6 +271,42 @@ def eval_content(ck, impl, drv, kind, raw):
     ck.traces += 1
 
 
+def fall_through_world(seed, i):
+    from ..model import W, put_argv
+    from ..runner import task_rng
+    from ..sandbox import MODEL_ROOT as R
+    rng = task_rng("C03ft", seed, i)
+    w = W()
+    uid = rng.choice([0, 1000])
+    home = w.dir(R + b"/home/" + rng.choice([b"u", b"a b", b"caf\xc3\xa9"]))
+    env = {"HOME": home}
+    data = home + b"/.local/share"
+    if rng.random() < 0.4:
+        data = home + rng.choice([b"/xdg data", b"/x%y"])
+        env["XDG_DATA_HOME"] = data
+    t = data + b"/Trash"
+    if rng.random() < 0.7:
+        w.dir(t, 0o700)
+        w.dir(t + b"/files", 0o700)
+        w.dir(t + b"/info", 0o700)
+    else:
+        w.dir(data)
+    w.file(data + b"/other app/state", b"kept together with the directory")
+    if rng.random() < 0.5:
+        w.dir(R + b"/.Trash", 0o1777)
+    # the argument: the data directory (or an ancestor of it below $HOME), spelled absolutely or from the home directory
+    target = rng.choice([data, data, os.path.dirname(data)] if os.path.dirname(data) != home else [data])
+    cwd = rng.choice([home, R])
+    arg = target if cwd != home or rng.random() < 0.5 else os.path.relpath(target, home)
+    args = [arg] + ([home + b"/plain"] if rng.random() < 0.5 else [])
+    if len(args) > 1:
+        w.file(home + b"/plain", b"an ordinary second argument")
+    return w.world(env=env, uid=uid, cwd=cwd, cmd="put", opts={}, args=args, argv=put_argv({}, args), stdin=None,
+                   randints=[rng.randint(0, 65535) for _ in range(16)],
+                   meta=[{"class": "entry", "kind": "tree", "spelling": "x", "entry": target}] +
+                        ([{"class": "entry", "kind": "file", "spelling": "abs", "entry": home + b"/plain"}] if len(args) > 1 else []))
+
+
 def run(tier, seed):
     ck = Check("C03", tier, seed)
     info = audit("C03")
@@ -295,6 +331,11 @@ def run(tier, seed):
         cfg = {"oracles": ("C03w",), "violations": ("C03w",), "profile": "mixed", "states": False}
         nw = 250 if tier == "quick" else 4000
         absorb(ck, "C03", run_tasks(eval_task, [{"pid": "C03w", "seed": seed, "i": i, "cfg": cfg} for i in range(nw)]), cfg, "Model.Put")
+        # fall-through between two KINDS of trash directory in one run, without any fault: a directory that contains the home
+        # trash cannot be moved into it (the info is written, the move refused, the info removed), the volume's
+        # .Trash-$uid takes over - and records the location its own way (relative to $topdir)
+        absorb(ck, "C03", run_tasks(eval_task, [{"pid": "C03w", "seed": seed, "i": -1, "cfg": cfg, "world": fall_through_world(seed, i)}
+                                                  for i in range(12 if tier == "quick" else 120)]), cfg, "Model.Put")
         ck.exhaustive = False
         ck.extra["exhaustive_subdomains"] = ["every byte 1-255 except '/' alone and inside a name",
                                              "ordered pairs of 40 interesting bytes", "64 boundary dates"]
